@@ -23,6 +23,7 @@ from harness.props.c02 import lean_ops
 
 MODULES = ['CirqVerif.Props.C06']
 IGN = 'verif-ignore'
+REPEAT_KEYS = [True]
 
 
 def phase_close(a, b, tol=1e-6):
@@ -82,7 +83,72 @@ def tagged_unique(cirq, circuit):
     return cirq.map_operations(circuit, tag)
 
 
+def eject_circuit(cirq, rng, with_ignored=False):
+    """phase-tracking stress: PhasedXZ / Z powers / Paulis interleaved with swap-like and CZ-like gates, flushed by ignored
+    operations, sub-circuits or the end of the circuit"""
+    import math
+
+    nq = rng.randint(2, 3)
+    qs = cirq.LineQubit.range(nq)
+    ops = []
+    for _ in range(rng.randint(2, 8)):
+        r = rng.random()
+        if r < 0.55:
+            g = rng.choice([cirq.PhasedXZGate(x_exponent=gen.rand_exponent(rng), z_exponent=gen.rand_exponent(rng), axis_phase_exponent=gen.rand_exponent(rng)), cirq.Z ** gen.rand_exponent(rng),
+                            cirq.PhasedXPowGate(phase_exponent=gen.rand_exponent(rng), exponent=rng.choice([1, 0.5, 0.25])), cirq.X, cirq.Y, cirq.Z, cirq.S, cirq.T, cirq.H, cirq.X ** 0.5])
+            op = g.on(rng.choice(qs))
+        else:
+            g = rng.choice([cirq.SWAP, cirq.ISWAP, cirq.ISWAP ** -1, cirq.FSimGate(theta=math.pi / 2, phi=rng.choice([0.0, 0.3])), cirq.FSimGate(theta=3 * math.pi / 2, phi=0.1), cirq.CZ, cirq.CZ ** gen.rand_exponent(rng),
+                            cirq.CNOT, cirq.ZZ ** 0.3, cirq.ISWAP ** 0.5])
+            op = g.on(*rng.sample(qs, 2))
+        if with_ignored and rng.random() < 0.2:
+            op = op.with_tags(IGN)
+        ops.append(op)
+    if rng.random() < 0.5:
+        # tail: phased gates on two wires, a swap-like gate on them, then a flush (end of circuit / ignored operation / sub-circuit)
+        a_, b_ = rng.sample(qs, 2)
+        pxz = lambda: cirq.PhasedXZGate(x_exponent=rng.choice([0.5, 0.25, 1.0]), z_exponent=rng.choice([0.25, -0.5, 0.3]), axis_phase_exponent=rng.choice([0.0, 0.125]))
+        ops.append(pxz().on(a_))
+        ops.append(rng.choice([cirq.Z ** 0.3, cirq.Z ** 0.7, pxz(), cirq.S]).on(b_))
+        ops.append(rng.choice([cirq.SWAP, cirq.ISWAP, cirq.ISWAP ** -1, cirq.FSimGate(theta=math.pi / 2, phi=0.0)]).on(a_, b_))
+        flush = rng.random()
+        if flush < 0.35 and with_ignored:
+            ops.append(cirq.H(b_).with_tags(IGN))
+        elif flush < 0.55:
+            ops.append(cirq.CircuitOperation(cirq.FrozenCircuit(cirq.H(a_))))
+    elif rng.random() < 0.3:
+        ops.append(cirq.CircuitOperation(cirq.FrozenCircuit(cirq.H(qs[0]), cirq.CZ(qs[0], qs[1]))))
+    c = cirq.Circuit(ops) if rng.random() < 0.6 else cirq.Circuit(ops, strategy=cirq.InsertStrategy.NEW)
+    return c, qs
+
+
+def feedforward_template(cirq, rng):
+    """a key measured twice with a gate in between, then a control on that key acting on a qubit that was idle since
+    the start, and a final measurement: key dependencies between operations on different qubits"""
+    q0, q1 = cirq.LineQubit.range(2)
+    pre = rng.choice([cirq.Y, cirq.X, cirq.H, cirq.I])
+    mid = rng.choice([cirq.H, cirq.X ** 0.5, cirq.Y ** 0.5])
+    ctl = rng.choice([cirq.X, cirq.Y, cirq.Z])
+    idx = rng.choice([-1, -1, 0, 1])
+    moments = [
+        cirq.Moment(cirq.measure(q0, key='a'), pre(q1)),
+        cirq.Moment(mid(q0)),
+        cirq.Moment(cirq.measure(q0, key='a')),
+        cirq.Moment(ctl(q1).with_classical_controls(cirq.KeyCondition(cirq.MeasurementKey('a'), idx))),
+        cirq.Moment(cirq.measure(q1, key='b')),
+    ]
+    r = rng.random()
+    if r < 0.3:
+        moments.insert(1, cirq.Moment(cirq.X(q1).with_classical_controls('a')))
+    elif r < 0.65:
+        # a measurement that can be merged leftwards into a gate, then a control on its key next to an idle-qubit gate
+        moments = [cirq.Moment(mid(q0), pre(q1)), cirq.Moment(cirq.measure(q0, key='a')), cirq.Moment(ctl(q1).with_classical_controls('a')), cirq.Moment(cirq.measure(q1, key='b'))]
+    return cirq.Circuit(moments), [q0, q1]
+
+
 def random_circuit(cirq, rng, measured=False, with_sub=False, with_ignored=False):
+    if measured and rng.random() < 0.3:
+        return feedforward_template(cirq, rng)
     nq = rng.randint(1, 3)
     qs = cirq.LineQubit.range(nq)
     ops = []
@@ -92,6 +158,10 @@ def random_circuit(cirq, rng, measured=False, with_sub=False, with_ignored=False
         k = min(rng.choice([1, 1, 1, 2]), nq)
         t = rng.sample(qs, k)
         if measured and r < 0.2:
+            if keys and rng.random() < 0.2 and REPEAT_KEYS[0]:
+                # the same key measured again (one qubit, like the first time or not)
+                ops.append(cirq.measure(t[0], key=rng.choice(keys)) if all(len(o.qubits) == 1 for o in ops if cirq.is_measurement(o)) else cirq.measure(*t, key=f'k{len(keys)}x'))
+                continue
             key = f'k{len(keys)}'
             keys.append(key)
             ops.append(cirq.measure(*t, key=key, invert_mask=tuple(rng.random() < 0.3 for _ in t)))
@@ -127,6 +197,20 @@ def random_circuit(cirq, rng, measured=False, with_sub=False, with_ignored=False
         if rng.random() < 0.5:
             c.insert(rng.randint(0, len(c)), cirq.Moment())
     return c, qs
+
+
+def moment_hazard(cirq, circuit):
+    """some moment holds two different operations of which one measures a key the other one measures or reads"""
+    for m in circuit:
+        ops = list(m.operations)
+        for i, a in enumerate(ops):
+            ma = cirq.measurement_key_names(a)
+            if not ma:
+                continue
+            for j, b in enumerate(ops):
+                if i != j and (ma & ({str(k) for k in cirq.control_keys(b)} | (cirq.measurement_key_names(b) if i < j else set()))):
+                    return True
+    return False
 
 
 def key_wires(cirq, circuit):
@@ -190,6 +274,14 @@ def rewriting(cirq):
         'optimize_for_target_gateset(SqrtIswap)': lambda c, context=None: cirq.optimize_for_target_gateset(c, gateset=cirq.SqrtIswapTargetGateset(), context=context),
         'unroll_circuit_op': lambda c, context=None: cirq.unroll_circuit_op(c, deep=True, tags_to_check=None),
         'add_dynamical_decoupling': cirq.add_dynamical_decoupling,
+        'drop_diagonal_before_measurement': cirq.drop_diagonal_before_measurement,
+        'merge_operations_to_circuit_op': lambda c, context=None: cirq.merge_operations_to_circuit_op(c, lambda a, b: True, deep=bool(context and context.deep), tags_to_ignore=context.tags_to_ignore if context else ()),
+        'merge_operations(sub-circuit)': lambda c, context=None: cirq.merge_operations(
+            c, lambda a, b: cirq.CircuitOperation(cirq.FrozenCircuit(a, b)) if len(set(a.qubits) | set(b.qubits)) <= 2 else None, deep=bool(context and context.deep), tags_to_ignore=context.tags_to_ignore if context else ()),
+        'merge_moments': lambda c, context=None: cirq.merge_moments(c, lambda m1, m2: cirq.Moment(m1.operations + m2.operations) if not (m1.qubits & m2.qubits) and not (cirq.measurement_key_names(m1) | cirq.measurement_key_names(m2)) else None,
+                                                                   deep=bool(context and context.deep)),
+        'map_operations_and_unroll': lambda c, context=None: cirq.map_operations_and_unroll(c, lambda op, _: cirq.decompose_once(op, default=op) if len(op.qubits) == 1 and cirq.has_unitary(op) else op,
+                                                                                           tags_to_ignore=context.tags_to_ignore if context else (), deep=bool(context and context.deep)),
         'index_tags+remove_tags': lambda c, context=None: cirq.remove_tags(cirq.index_tags(c, target_tags={str}), target_tags={str}) if False else c,
     }
 
@@ -257,14 +349,43 @@ def run(ctx: common.Run):
         if any(op not in ops_out for op in circuit.all_operations()):
             ctx.report_witness(f'structure:changed-op:{name.split("(")[0]}', 'a structure-only transformer changed an operation', dict(rep, impl_out=[repr(out)[:2500]], spec_out=['operations unchanged']))
     # ---------------------------------------------------------------- rewriting transformers: semantics through the Lean interpreters
-    for i in range(n):
+    cq0, cq1 = cirq.LineQubit.range(2)
+    corpus = [  # minimised past failures / known findings always run: (circuit, transformer names)
+        (cirq.Circuit(cirq.H(cq0), cirq.Z(cq0), cirq.CircuitOperation(cirq.FrozenCircuit(cirq.H(cq0), cirq.measure(cq0, key='m')))), ['drop_diagonal_before_measurement']),
+        (cirq.Circuit(cirq.X(cq0), cirq.measure(cq0, key='a'), cirq.X(cq0), cirq.measure(cq1, key='a')), ['defer_measurements', 'synchronize_terminal_measurements']),
+        (cirq.Circuit(cirq.measure(cq0, key='a'), cirq.X(cq1).with_classical_controls('a'), cirq.X(cq0), cirq.measure(cq0, key='a')), ['defer_measurements']),
+        (cirq.Circuit(cirq.X(cq0), cirq.measure(cq0, key='a'), cirq.I(cq1), cirq.Moment(cirq.H(cq1)), cirq.Moment(cirq.H(cq1)), cirq.measure(cq1, key='a')), ['synchronize_terminal_measurements']),
+        (cirq.Circuit(cirq.Moment(cirq.H(cq0), cirq.Y(cq1)), cirq.Moment(cirq.measure(cq0, key='a')), cirq.Moment(cirq.X(cq1).with_classical_controls('a')), cirq.Moment(cirq.measure(cq1, key='b'))), ['merge_operations_to_circuit_op', 'merge_operations(sub-circuit)']),
+        (cirq.Circuit(cirq.X(cq0) ** 0.3, cirq.Moment(cirq.H(cq1)), cirq.Moment(cirq.Y(cq0).with_tags(IGN)), cirq.Moment(cirq.H(cq1)), cirq.X(cq0) ** 0.2, cirq.CZ(cq0, cq1)), ['add_dynamical_decoupling'], 'ignored'),
+    ]
+    for i in range(n + len(corpus)):
         variant = rng.choice(['plain', 'plain', 'ignored', 'sub', 'measured', 'measured'])
-        circuit, qs = random_circuit(cirq, rng, measured=(variant == 'measured'), with_sub=(variant == 'sub'), with_ignored=(variant == 'ignored'))
+        forced = None
+        if i < len(corpus):
+            variant, forced = (corpus[i][2] if len(corpus[i]) > 2 else 'measured'), corpus[i]
+        stream = 'random'
+        if variant in ('plain', 'ignored') and rng.random() < 0.45:
+            circuit, qs = eject_circuit(cirq, rng, with_ignored=(variant == 'ignored'))
+            stream = 'eject'
+            ctx.count('stream', 'eject')
+        else:
+            circuit, qs = random_circuit(cirq, rng, measured=(variant == 'measured'), with_sub=(variant == 'sub'), with_ignored=(variant == 'ignored'))
+        if forced is not None:
+            circuit, qs = forced[0], sorted(forced[0].all_qubits())
         is_unitary = not any(cirq.is_measurement(o) or isinstance(o.untagged, cirq.ClassicallyControlledOperation) for o in flat_ops(cirq, circuit))
         names = list(rw)
         if variant == 'measured':
             names += list(MEASURED_ONLY)
         chosen = rng.sample(names, min(len(names), 9 if ctx.tier == 'quick' else 14))
+        # the passes each stream is designed to stress always run on it
+        must = []
+        if stream == 'eject':
+            must = ['eject_z', 'eject_z(eject_parameterized)', 'eject_phased_paulis', 'merge_single_qubit_gates_to_phxz']
+        elif variant == 'measured':
+            must = ['merge_operations_to_circuit_op', 'merge_operations(sub-circuit)', 'defer_measurements', 'synchronize_terminal_measurements', 'drop_diagonal_before_measurement']
+        chosen = must + [x for x in chosen if x not in must][: max(0, len(chosen) - len(must))]
+        if forced is not None:
+            chosen = forced[1]
         want_u = want_d = None
         for name in chosen:
             f = rw[name] if name in rw else MEASURED_ONLY[name](cirq)
@@ -278,6 +399,9 @@ def run(ctx: common.Run):
                 out = f(circuit, context=context)
             except (ValueError, TypeError, NotImplementedError) as e:
                 ctx.count('transformer_error', f'{name}:{type(e).__name__}:{str(e)[:30]}')
+                if name == 'defer_measurements' and 'not found' in str(e):
+                    ctx.report_witness('rewrite:defer_measurements:raises', f'defer_measurements fails on a valid circuit: {str(e)[:80]}', {'lines': [{'transformer': name, 'circuit': repr(circuit)}], 'impl_out': [str(e)[:200]],
+                                       'spec_out': ['a circuit with the same record distribution'], 'theorem_or_correspondence': 'Lean reference semantics (C02)'})
                 continue
             ctx.count('check', 'rewrite:' + name.split('(')[0])
             ctx.count('variant', variant)
@@ -321,6 +445,19 @@ def run(ctx: common.Run):
                 if not dist_close(got_d, want_d):
                     ctx.report_witness(f'rewrite:{name.split("(")[0]}:measured', 'the transformed circuit has a different joint distribution of measurement records',
                                        dict(rep, impl_out=[repr(out)[:2000], sorted((repr(k), round(v, 8)) for k, v in got_d.items())[:10]], spec_out=[sorted((repr(k), round(v, 8)) for k, v in want_d.items())[:10]]))
+                elif moment_hazard(cirq, out) and not moment_hazard(cirq, circuit):
+                    # Moment equality ignores the order of the operations inside a moment, so the meaning of the output may not
+                    # depend on it: the same moments with their operations listed in reverse must give the same distribution
+                    rev = cirq.Circuit(cirq.Moment(list(m.operations)[::-1]) for m in out)
+                    assert rev == out
+                    try:
+                        rev_d = lean_distribution(ctx, cirq, rev, all_qs)
+                    except common.InfraError:
+                        rev_d = want_d
+                    ctx.count('moment_order_probe', name.split('(')[0])
+                    if not dist_close(rev_d, want_d):
+                        ctx.report_witness(f'rewrite:{name.split("(")[0]}:moment-order', 'the transformed circuit holds a measurement and an operation depending on its key in one moment: an equal circuit (same moments, operations listed in another order) has a different distribution',
+                                           dict(rep, impl_out=[repr(out)[:2000], sorted((repr(k), round(v, 8)) for k, v in rev_d.items())[:10]], spec_out=[sorted((repr(k), round(v, 8)) for k, v in want_d.items())[:10]]))
             # operations tagged to be ignored are left untouched
             if variant == 'ignored':
                 kept = list(out.all_operations())
@@ -329,7 +466,7 @@ def run(ctx: common.Run):
                         ctx.report_witness(f'ignored-op:{name.split("(")[0]}', 'an operation carrying a tag listed in tags_to_ignore was rewritten or removed', dict(rep, impl_out=[repr(out)[:2500]], spec_out=[repr(op)]))
                         break
             # sub-circuits are only rewritten when deep transformation is requested
-            if variant == 'sub' and context is not None and not context.deep and not name.startswith(('unroll', 'expand_composite', 'optimize_for', 'add_dynamical')):
+            if variant == 'sub' and context is not None and not context.deep and not name.startswith(('unroll', 'expand_composite', 'optimize_for', 'add_dynamical', 'merge_operations', 'map_operations_and_unroll')):
                 # (a sub-circuit operation may be consumed as a whole by a merging pass; what must not happen is that it survives with a rewritten body)
                 subs_in = [o.untagged for o in circuit.all_operations() if isinstance(o.untagged, cirq.CircuitOperation)]
                 subs_out = [o.untagged for o in out.all_operations() if isinstance(o.untagged, cirq.CircuitOperation)]
